@@ -750,7 +750,7 @@ fn exhausted_case(idx: u64, rng: &mut Prng, col: &mut Collector) {
 
 /// Maximum MACPayload size M per downlink data rate (RP002, no dwell-time limit, not repeater
 /// compatible): the harness' own table.
-fn max_mac_payload(reg: regions::Reg, dr: u8) -> Option<usize> {
+pub(crate) fn max_mac_payload(reg: regions::Reg, dr: u8) -> Option<usize> {
     use regions::Reg::*;
     let t: &[(u8, usize)] = match reg {
         EU868 | EU433 => &[(0, 59), (1, 59), (2, 59), (3, 123), (4, 250), (5, 250), (6, 250)],
